@@ -28,6 +28,16 @@ def canary(cls):
     return cls
 
 
+def small_interval(B):
+    """[start, end) inside [0, 2^31]; concrete sampling keeps it to a handful of rows"""
+    a = B.int("start", 0, HARD + 1)
+    if B.concrete:
+        b = min(HARD, max(0, a + B.int("rows", -1, 4)))
+        B.vals["end"] = b
+        return a, b
+    return a, B.int("end", 0, HARD + 1)
+
+
 PURPOSE = {"bip44": (44, 0, "p2pkh"), "bip49": (49, 1, "p2sh_p2wpkh"), "bip84": (84, 2, "p2wpkh")}
 
 
@@ -56,7 +66,7 @@ class _BipGroup:
     def inputs(self, B):
         w, wn = sym_wallet(B, private=True)
         account = B.int("account", 0, HARD)
-        a, b = B.int("start", 0, HARD + 1), B.int("end", 0, HARD + 1)
+        a, b = small_interval(B)
         return [w], dict(account=account, interval=(a, b)), NS(w=wn, account=account, a=a, b=b)
 
     def modifies(self, c, I):
